@@ -108,6 +108,12 @@ func propC03(c c03Case) *Outcome {
 	o.Observed = obs
 	dev := mdDeviation(s, e, obs)
 	if dev == "" {
+		if sampleForReference(s) {
+			o.class("model-also-validated-on-grpc-go")
+			if rdev := mdDeviation(s, e, runScript(s, cGRPC, carrierOpts{})); rdev != "" {
+				o.Inconclusive = "model disagrees with reference transport although the SUT agrees with the model: " + rdev
+			}
+		}
 		return o
 	}
 	if sig := kfHTTPTrailerNotUTF8(c.Carrier, s, e, obs); sig != "" && knownOpen("C03", sig) {
